@@ -287,7 +287,7 @@ def _main(argv=None):
             # e.g. a violation that needs CPython to recycle an object id: try every violating run of the batch
             tried = {c[0] for c in cands}
             more = [(run_i, r) for cls, occ in order for run_i, r, v in occ if run_i not in tried][:400]
-            confirmed = core.confirm_candidates(prop, seed, more, None, budget_s=180.0)
+            confirmed = core.confirm_candidates(prop, seed, more, None, budget_s=400.0)
     if unknown and not confirmed:
         # Nothing of the batch reproduces on pristine state: the tree under test may keep process-global state that
         # reset_process_state() does not know (so that runs of one worker contaminate each other).  Sweep the first
@@ -306,7 +306,7 @@ def _main(argv=None):
         if iso:
             print(f"note: the in-process batch did not reproduce on pristine state; {len(iso)} violating run(s) found by "
                   f"re-running the first runs in pristine forked processes")
-            confirmed = core.confirm_candidates(prop, seed, iso, None, budget_s=180.0)
+            confirmed = core.confirm_candidates(prop, seed, iso, None, budget_s=400.0)
             for cls, (run_i, tape, fres) in confirmed.items():
                 unknown.setdefault(cls, [])
     unconfirmed = [cls for cls in sorted(unknown) if cls not in confirmed]
